@@ -470,6 +470,61 @@ func topTag(o tengo.Object) string {
 	return s
 }
 
+// ---- builtin modules shared by two compilations ----------------------------------
+//
+// One ModuleMap (the embedder's), two scripts compiled from it one after the other. Whatever the first script does
+// with the table it imported - also writes through the mutable containers INSIDE it, which shallow immutability
+// allows - the second script imports the module as the embedder defined it, and the embedder's own attribute
+// objects are unchanged.
+var sharedOps = []string{"c.limits.max = 99", "c.tags[0] = \"hacked\"", "c.limits.extra = 1", "splice(c.tags, 0, 1)", "delete(c.limits, \"max\")",
+	"x := c.limits; x.max += 1", "for k, v in c.limits { c.limits[k] = 0 }", "c.nested.deep[0][0] = 5"}
+
+func sharedCases() []Case {
+	var out []Case
+	for _, op := range sharedOps {
+		for _, via := range []string{"direct", "via-source-module"} {
+			out = append(out, Case{Kind: "shared", ID: "shared-builtin/" + via + "/op=" + op, Sig: "shared-builtin/module-definition-changed/" + via, Op: op, NameClass: via})
+		}
+	}
+	return out
+}
+
+func runShared(c Case) (fails []fail, obs string) {
+	add := func(what string) { fails = append(fails, fail{c.Sig, fmt.Sprintf("%s [first script: %q]", what, c.Op)}) }
+	attrs := map[string]tengo.Object{
+		"limits": gmap("max", gi(3), "min", gi(1)),
+		"tags":   garr(&tengo.String{Value: "a"}, &tengo.String{Value: "b"}),
+		"nested": gmap("deep", garr(garr(gi(1)))),
+		"n":      gi(7),
+	}
+	before := val.Snapshot(&tengo.Map{Value: attrs})
+	mm := tengo.NewModuleMap()
+	mm.AddBuiltinModule("cfg", attrs)
+	mm.AddSourceModule("w", []byte("export import(\"cfg\")\n"))
+	imp := "c := import(\"cfg\")\n"
+	if c.NameClass == "via-source-module" {
+		imp = "c := import(\"w\")\n"
+	}
+	o1 := execScript(execIn{main: imp + c.Op + "\n", mods: mm})
+	if o1.class == "panic" || o1.class == "timeout" || o1.class == "noterm" {
+		add("first script " + o1.class + ": " + tg.FirstLine(o1.text))
+		return fails, o1.class
+	}
+	o2 := execScript(execIn{main: imp + "r := [c.limits, c.tags, c.nested, c.n]\n", mods: mm})
+	if o2.class != "ok" {
+		add("second script " + o2.class + ": " + tg.FirstLine(o2.text))
+		return fails, "second:" + o2.class
+	}
+	const want = "array[map{\"max\":int:3,\"min\":int:1},array[string:\"a\",string:\"b\"],map{\"deep\":array[array[int:1]]},int:7]"
+	if got := val.Snapshot(o2.globals["r"]); got != want {
+		add("a second script compiled from the same module map sees " + got + ", the module defines " + want)
+	}
+	if after := val.Snapshot(&tengo.Map{Value: attrs}); after != before {
+		add("the embedder's attribute objects changed: " + before + " -> " + after)
+	}
+	return fails, "first:" + o1.class
+}
+
 func runImmut(c Case) (fails []fail, obs string) {
 	add := func(what string) {
 		fails = append(fails, fail{c.Sig, fmt.Sprintf("%s [module: %q; op: %q]", what, c.Export, c.Op)})
@@ -609,4 +664,16 @@ func sortedMods(m map[string]string) string {
 		fmt.Fprintf(&sb, "%s=%q ", k, m[k])
 	}
 	return sb.String()
+}
+
+func gi(v int64) tengo.Object { return &tengo.Int{Value: v} }
+
+func garr(xs ...tengo.Object) *tengo.Array { return &tengo.Array{Value: xs} }
+
+func gmap(kv ...interface{}) *tengo.Map {
+	m := map[string]tengo.Object{}
+	for i := 0; i+1 < len(kv); i += 2 {
+		m[kv[i].(string)] = kv[i+1].(tengo.Object)
+	}
+	return &tengo.Map{Value: m}
 }
